@@ -103,7 +103,7 @@ func (c *checkSchema) checkType(name string, typ schema.Type, ss map[string]sche
 		// An error found at a lexeme knows its file: a property inherited with
 		// allOf lies in the file of the type it comes from, not in this type's.
 		if documentError, ok := r.(errors.DocumentError); ok {
-			if documentError.Filename() == "" {
+			if !documentError.HasFile() {
 				documentError.SetFile(typ.RootFile())
 			}
 			documentError.SetIncorrectUserType(nameOfTypeForError(name, typ, ss))
